@@ -581,11 +581,13 @@ def decorator_lift_transform_cached(transform, class_fn, **trafo_kwargs):
     class_fns = (class_fn,)
   prewrapped_fns = [wrap_method_once(class_fn) for class_fn in class_fns]
   trafo_fn = None
+  # module state (e.g. the autoname cursor) left behind by a traced call,
+  # re-applied when the same call is a cache hit and the method does not run
+  traced_states: dict[_HashableProxy, Any] = {}
 
   @functools.wraps(prewrapped_fns[0])
   def wrapped_fn(self: Module, *args, **kwargs):
     nonlocal trafo_fn
-    state = self._state.export()
 
     # increment rng counters for all rngs in scope
     with fork_rngs(self):
@@ -603,9 +605,12 @@ def decorator_lift_transform_cached(transform, class_fn, **trafo_kwargs):
         if not multi_scope:
           scopes = [scopes]
         cloned, args, kwargs = set_module_scopes(self, args, kwargs, scopes)
-        object.__setattr__(cloned, '_state', state.export())
+        # `trafo_fn` (and with it this closure) is created by the first call
+        # only: take the state of the module that is being traced now
+        object.__setattr__(cloned, '_state', self._state.export())
         res = prewrapped_fn(cloned, *args, **kwargs)
         self._state.reimport(cloned._state)
+        traced_states[module_hash] = cloned._state.export()
         _test_transformed_return_values(
             res, getattr(class_fn, '__name__', None)
         )
@@ -640,7 +645,10 @@ def decorator_lift_transform_cached(transform, class_fn, **trafo_kwargs):
       # get a hashable proxy object for the Module
       hash_key = _HashableProxy.from_module(self)
 
-      return trafo_fn(module_scopes, hash_key, *args, **kwargs)
+      res = trafo_fn(module_scopes, hash_key, *args, **kwargs)
+      if hash_key in traced_states:
+        self._state.reimport(traced_states[hash_key])
+      return res
 
   return wrapped_fn
 
